@@ -602,7 +602,9 @@ def _run_post(ctx, root, status_kind, path_key, media_type, body_hex, family, re
         try:
             doc = strictjson.decode(rbody.decode('utf-8'))
         except Exception:
-            viol('reply-body-not-json', fam, cls, twin_reply=twin_text, **wit)
+            # (the reply to a body of the non-string-keys family gets a name of its own: another class of input, another finding)
+            viol('reply-body-not-json' + (':reply-holds-a-mapping-with-non-string-keys' if family == 'non-string-keys' else ''), fam, cls,
+                 twin_reply=twin_text, **wit)
             continue
         if not strictjson.typed_eq(doc, t.doc):
             viol('reply-document-differs-from-dispatcher-response', fam, cls, twin_reply=twin_text, **wit)
